@@ -157,8 +157,8 @@ func init() {
 	quick := build(60, 2)
 	thorough := build(90, 1)
 	fw.Register(&fw.Check{ID: "C08", Level: "exploration",
-		Technique: "runtime monitoring with injected delays: the handler is held between Create and Watch until the controllers have performed k more persisted effects, k enumerated; clock-free duplicate-event probe decides 'keeps waiting'; responses and error classes vs the sequential model; OK answers ordered against the transaction's writes in the event log",
-		Rule:      "placements = request kind {multi-target ok, single ok, validation failure, device refusal, rollback of latest / older / unknown index} x sync/async x k = 0,2,..,60 effects between the handler's Create and Watch (thorough: every k up to 90) + offline-target async; distinct_nontrivial = distinct placements executed",
+		Technique:   "runtime monitoring with injected delays: the handler is held between Create and Watch until the controllers have performed k more persisted effects, k enumerated; clock-free duplicate-event probe decides 'keeps waiting'; responses and error classes vs the sequential model; OK answers ordered against the transaction's writes in the event log",
+		Rule:        "placements = request kind {multi-target ok, single ok, validation failure, device refusal, rollback of latest / older / unknown index} x sync/async x k = 0,2,..,60 effects between the handler's Create and Watch (thorough: every k up to 90) + offline-target async; distinct_nontrivial = distinct placements executed",
 		Assumptions: s2Assumptions, DistinctSet: "placement", CaseTimeout: 300e9,
 		Floors: map[string]int64{"probed_calls_answered": 300, "handlers_shown_awaited_state": 300, "ok_answers_ordered_against_stage": 400},
 		Cases: func(tier string) int {
